@@ -34,7 +34,10 @@ tvars == <<gr, live, steps, hist, impl, i, k, cur, bad>>
 ToSet(sq) == {sq[j] : j \in DOMAIN sq}
 GraphOf(c) == [nodes |-> ToSet(c.nodes), edges |-> ToSet(c.edges)]
 ContOf(c) == [g \in DOMAIN c |-> GraphOf(c[g])]
-Post(p) == [gr   |-> [s \in Slots |-> [nodes |-> ToSet(p[s].nodes), edges |-> ToSet(p[s].deps)]],
+(* (edges towards something that is not a node are reported by ViewsOK; they are left out here so
+   that every recorded state is a graph) *)
+Post(p) == [gr   |-> [s \in Slots |-> [nodes |-> ToSet(p[s].nodes),
+                                       edges |-> {e \in ToSet(p[s].deps) : e[1] \in ToSet(p[s].nodes) /\ e[2] \in ToSet(p[s].nodes)}]],
             live |-> {s \in Slots : p[s].live}]
 Start == [gr |-> [s \in Slots |-> A!Empty], live |-> {1}]
 
